@@ -4,6 +4,7 @@
 // before/after snapshot of the node state, the scratch directory, the stop callback and the transport listener.
 #define VERIF_FUZZ_TARGET 1
 #include "ctl_common.hpp"
+#include "ephemeralnet/bootstrap/TokenChallenge.hpp"
 
 namespace verif {
 const PropertyInfo kInfo = {
@@ -13,7 +14,7 @@ const PropertyInfo kInfo = {
     "of a local chunk | STOP | FETCH stream / OUT of a manifest published by another node (not known to this one), with the TOKEN header "
     "{absent, exact, random same length, proper prefix (incl. empty), exact+extra, case-flipped, empty, proper suffix, extra+exact, one bit flipped at any "
     "position, exact value under another header name (X-TOKEN / TOKENS / AUTH) with TOKEN absent}; header lines (COMMAND, TOKEN, PAYLOAD-LENGTH, others) in a "
-    "shuffled order, header names in mixed case and the command word in upper / lower / mixed case. Oracle: the request is authorised iff a TOKEN value was sent and equals the configured token byte for byte. "
+    "shuffled order, (FETCH, 1/4) the BOOTSTRAP / DISCOVERY-* headers of a hint-following `eph fetch` with the manifest's token-challenge solution as TOKEN, header names in mixed case and the command word in upper / lower / mixed case. Oracle: the request is authorised iff a TOKEN value was sent and equals the configured token byte for byte. "
     "Not authorised => STATUS:ERROR (with an authentication CODE when the request is otherwise well-formed, names canonical and the target chunk local) and no effect: chunk set, "
     "manifest cache, swarm plans, shard records and pending fetches unchanged, scratch directory empty, stop callback not invoked, transport port still "
     "accepting connections, next PING answered. Authorised (canonical header names) => normal result (chunk stored under sha256(payload); streamed / "
@@ -96,6 +97,9 @@ void run_case(Ctx& c) {
 
     Config cfg = ctl::quiet_config(27);
     cfg.control_token = token;
+    // the handshake difficulty becomes the token-challenge difficulty of the manifests this node issues
+    static const std::uint8_t kHandshakeBits[4] = {0, 4, 8, 6};
+    cfg.handshake_pow_difficulty = kHandshakeBits[t.h(6) % 4];
     Node node(vnode::make_id(5, 0x27), cfg);
     if (!node.config().control_token || *node.config().control_token != token) c.fail("C27:harness-error", "configured token did not survive Config sanitisation");
 
@@ -159,6 +163,27 @@ void run_case(Ctx& c) {
         const std::uint64_t name_seed = r.a(3);
         const unsigned p = r.a(4);
         TokenChoice tc = make_token(token, variant, varg, r.seed());
+        // What `eph fetch` sends when it follows a control hint of a manifest: BOOTSTRAP / DISCOVERY-* headers and, as
+        // TOKEN, the solution of the manifest's token challenge (not the daemon's control token).  A daemon with a control
+        // token still has to refuse it.
+        const bool bootstrap_style = (r.a(6) & 3) == 3 && (r.op() % kKinds == kFetchStream || r.op() % kKinds == kFetchOut || r.op() % kKinds == kForeignStream || r.op() % kKinds == kForeignOut);
+        if (bootstrap_style && !(tc.sent && tc.value == token)) {
+            tc.sent = true;
+            tc.other_name.clear();
+            tc.value = "0";
+            try {
+                const Local& tg = (r.op() % kKinds == kForeignStream || r.op() % kKinds == kForeignOut) ? foreign : locals[p % locals.size()];
+                auto m = protocol::decode_manifest(tg.uri);   // its token_challenge_bits come from the issuing node's handshake difficulty
+                protocol::DiscoveryHint hint{};
+                hint.scheme = "control";
+                hint.transport = "control";
+                hint.endpoint = "127.0.0.1:47777";
+                if (auto solved = bootstrap::solve_token_challenge(m, hint, m.security.token_challenge_bits)) tc.value = std::to_string(*solved);
+            } catch (const std::exception&) {
+            }
+            if (tc.value == token) tc.value += "0";
+            c.label("bootstrap_style_fetch_with_challenge_token");
+        }
         const bool authorised = tc.sent && tc.value == token;
         const bool canonical_names = name_seed == 0;
         const bool is_fetch = kind == kFetchStream || kind == kFetchOut || kind == kForeignStream || kind == kForeignOut;
@@ -196,6 +221,14 @@ void run_case(Ctx& c) {
             if (p & 0x80) lines.push_back({"PATH", "dir/file-" + std::to_string(p) + ".bin"});
             lines.push_back({"PAYLOAD-LENGTH", std::to_string(payload.size())});
         } else if (is_fetch) {
+            if (bootstrap_style) {
+                lines.push_back({"BOOTSTRAP", "1"});
+                lines.push_back({"DISCOVERY-ENDPOINT", (r.a(6) & 8) ? "control://127.0.0.1:47777" : "127.0.0.1:47777"});
+                lines.push_back({"DISCOVERY-SCHEME", "control"});
+                lines.push_back({"DISCOVERY-TRANSPORT", "control"});
+                lines.push_back({"DISCOVERY-PRIORITY", std::to_string(r.a(6) % 16)});
+                if (r.a(6) & 4) { lines.push_back({"FALLBACK", "1"}); lines.push_back({"DISCOVERY-RESOLVED", "127.0.0.1:47777"}); }
+            }
             lines.push_back({"MANIFEST", target.uri});
             if (kind == kFetchStream || kind == kForeignStream) lines.push_back({"STREAM", (p & 1) ? "client" : "CLIENT"});
             else {
